@@ -841,6 +841,10 @@ class EnumSerializer(Generic[TEnum, T, T_NP], TypeSerializer[TEnum, T_NP]):
         self._enum_type = enum_type
 
     def write(self, stream: CodedOutputStream, value: TEnum) -> None:
+        if isinstance(value, np.generic):
+            # a field of a record that is an element of a NumPy array holds the integer value
+            self.write_numpy(stream, cast(T_NP, value))
+            return
         self._integer_serializer.write(stream, value.value)
 
     def write_numpy(self, stream: CodedOutputStream, value: T_NP) -> None:
@@ -1332,13 +1336,13 @@ class RecordSerializer(TypeSerializer[T, np.void]):
         )
 
     def read_numpy(self, stream: CodedInputStream) -> np.void:
-        # a nested record has to be read in its NumPy form as well
+        # a nested record and an enum (an integer in the array) have to be read in their NumPy form as well
         return cast(
             np.void,
             tuple(
                 (
                     serializer.read_numpy(stream)
-                    if isinstance(serializer, RecordSerializer)
+                    if isinstance(serializer, (RecordSerializer, EnumSerializer))
                     else serializer.read(stream)
                 )
                 for _, serializer in self._field_serializers
